@@ -380,6 +380,41 @@ fn p_ipv4_boundary_strict() {
     kani::cover!(matches!(expected, Err(RefIpErr::Len(RefLen { source: LenSource::Ipv4HeaderTotalLen, layer: err::Layer::Ipv4Packet, .. }))));
 }
 
+/// C04/C06/C07, bounded (all inputs <= 40 B with version nibble 4): the struct decoder `IpHeaders::from_ipv4_slice` returns
+/// exactly the RFC 791 / RFC 4302 reference boundary (header length, extension length, payload byte range, protocol,
+/// fragmentation, length source) resp. the reference fault (layer, offset, lengths, length source) - the same reference the
+/// slice decoders are held to in `p_ipv4_boundary_strict`; the header fields that delimit the packet (IHL, total length,
+/// protocol, fragment offset / MF) are those of the bytes.
+#[kani::proof]
+#[kani::unwind(4)]
+fn p_ipv4_boundary_headers() {
+    let mut b: [u8; 40] = kani::any();
+    let l: usize = kani::any();
+    kani::assume(l <= 40);
+    b[0] = 0x40 | (b[0] & 0xf);
+    let s = &b[..l];
+    let expected = ref_ipv4_strict(s);
+    let real = IpHeaders::from_ipv4_slice(s);
+    if let Ok((IpHeaders::Ipv4(h, _), _)) = &real {
+        assert!(h.ihl() == b[0] & 0xf && h.total_len == u16::from_be_bytes([b[2], b[3]]) && h.protocol.0 == b[9]);
+        assert!(h.more_fragments == (b[6] & 0x20 != 0) && h.dont_fragment == (b[6] & 0x40 != 0) && h.fragment_offset.value() == u16::from_be_bytes([b[6] & 0x1f, b[7]]));
+    }
+    let real = match real {
+        Ok((IpHeaders::Ipv4(h, e), p)) => Ok(pay_of(&p, s, h.header_len(), e.auth.as_ref().map(|a| a.header_len()).unwrap_or(0))),
+        Ok(_) => Err(RefIpErr::Version(0xff)),
+        Err(err::ipv4::SliceError::Len(e)) => Err(len_of(&e)),
+        Err(err::ipv4::SliceError::Header(err::ipv4::HeaderError::UnexpectedVersion { version_number })) => Err(RefIpErr::Version(version_number)),
+        Err(err::ipv4::SliceError::Header(err::ipv4::HeaderError::HeaderLengthSmallerThanHeader { ihl })) => Err(RefIpErr::Ihl(ihl)),
+        Err(err::ipv4::SliceError::Exts(_)) => Err(RefIpErr::AuthZeroPayloadLen),
+    };
+    assert!(same(real, expected), "IpHeaders::from_ipv4_slice differs from the RFC 791 reference boundary");
+    kani::cover!(matches!(expected, Ok(RefIpOk { ext_len: 12, .. })));
+    kani::cover!(matches!(expected, Ok(RefIpOk { header_len: 24, .. })));
+    kani::cover!(matches!(expected, Err(RefIpErr::Len(RefLen { layer: err::Layer::IpAuthHeader, .. }))));
+    kani::cover!(matches!(expected, Err(RefIpErr::Len(RefLen { source: LenSource::Slice, layer: err::Layer::Ipv4Packet, .. }))));
+    kani::cover!(matches!(expected, Err(RefIpErr::Len(RefLen { source: LenSource::Ipv4HeaderTotalLen, layer: err::Layer::Ipv4Packet, .. }))));
+}
+
 // ---------------------------------------------------------------------------------------------------------------------------
 // C07 whole-packet error localisation: when the IP layer decodes, a length error of `SlicedPacket` names the transport layer at
 // the offset where the IP payload starts (relative to the slice that was passed in), reports what was really available there
